@@ -212,7 +212,8 @@ func solveOnce(rep *FuncReport, o *Obligation, dir string, idx int, timeoutS, se
 				res.Solver += "+" + x.solver
 				break
 			}
-			if res.Status == "" || res.Status == "unknown" {
+			if res.Status == "" || res.Status == "unknown" || res.Status == "error" {
+				// (a solver that rejects the fragment -- e.g. cvc5 on array-indexed arrays -- abstains)
 				res.Status = x.status
 				res.Solver = x.solver
 				res.TimeS = x.dur
